@@ -18,6 +18,7 @@ func init() {
 	vhRegister("vh_C02_threshold_twin", vh_C02_threshold_twin)
 	vhRegister("vh_C10_threshold", vh_C10_threshold)
 	vhRegister("vh_C10_samekey", vh_C10_samekey)
+	vhRegister("vh_C02_reallinks", vh_C02_reallinks)
 }
 
 // ---- model metadata ---------------------------------------------------------
@@ -252,7 +253,8 @@ func vh_C10_threshold(a []int) {
 // a = {}
 func vh_C10_samekey(a []int) {
 	layout := Layout{Type: "layout", Keys: map[string]Key{vhFID[0]: vhFKey(0), vhFID[1]: vhFKey(1)}}
-	layout.Steps = []Step{{Type: "step", Threshold: vInt("threshold", 0, 2), PubKeys: []string{vhFID[0], vhFID[1]}, SupplyChainItem: SupplyChainItem{Name: "s1"},
+	// the key ids are listed in descending order: the list belongs to the caller's layout and stays as it is
+	layout.Steps = []Step{{Type: "step", Threshold: vInt("threshold", 0, 2), PubKeys: []string{vhFID[1], vhFID[0]}, SupplyChainItem: SupplyChainItem{Name: "s1"},
 		CertificateConstraints: []CertificateConstraint{{CommonName: "*"}}}}
 	own := &vhMeta{tag: "L0", payload: Link{Type: "link", Name: "s1"}, sigs: []Signature{{KeyID: vhFID[1], Sig: "00"}}}
 	other := vPick("filed-under", vhFID[0], vhFID[2], vhForged[0])
@@ -263,6 +265,9 @@ func vh_C10_samekey(a []int) {
 	v1, e1 := VerifyLinkSignatureThesholds(layout, md, nil, nil)
 	v2, e2 := VerifyLinkSignatureThesholds(layout, md, nil, nil)
 	vObserve("samekey", e1 == nil, e2 == nil)
+	pk := layout.Steps[0].PubKeys
+	vAssert("C10.the-callers-layout-and-link-map-are-untouched", len(pk) == 2 && pk[0] == vhFID[1] && pk[1] == vhFID[0] && len(layout.Keys) == 2 &&
+		len(md["s1"]) == 2 && md["s1"][vhFID[1]] == Metadata(own) && len(own.sigs) == 1 && len(attributed.sigs) == 2)
 	vAssert("C10.threshold-verdict-order-independent", (e1 == nil) == (e2 == nil))
 	if e1 == nil && e2 == nil {
 		same := len(v1["s1"]) == len(v2["s1"])
@@ -274,6 +279,33 @@ func vh_C10_samekey(a []int) {
 		vAssert("C10.counted-links-order-independent", same)
 	}
 	vReach("C10.end")
+}
+
+// vh_C02_reallinks: the real legacy wrapper in the threshold check.  One step lists one Ed25519 functionary; the
+// link carries one signature entry whose key id is the functionary's, an extension of it, an abbreviation of it, or
+// another one, and whose value is the functionary's real signature or junk; the link is filed under the entry's key
+// id or under the functionary's.  It counts only if the entry names exactly the functionary and is his signature.
+// a = {}
+func vh_C02_reallinks(a []int) {
+	kid := vhEdIDs[0]
+	payload := Link{Type: "link", Name: "s1"}
+	signedOnce := &Metablock{Signed: payload, Signatures: []Signature{}}
+	if err := signedOnce.Sign(vhEdKey(0, true)); err != nil {
+		vFail("sign")
+	}
+	good := signedOnce.Signatures[0].Sig
+	entryID := vPick("sig.keyid", kid, kid+"00", kid[:8], "ff"+kid)
+	sigVal := vPick("sig.value", good, "00", "zz")
+	link := &Metablock{Signed: payload, Signatures: []Signature{{KeyID: entryID, Sig: sigVal}}}
+	filedUnder := vIteStr(vBool("filed-under-the-functionary"), kid, entryID)
+	layout := Layout{Type: "layout", Keys: map[string]Key{kid: vhEdKey(0, false)},
+		Steps: []Step{{Type: "step", Threshold: 1, PubKeys: []string{kid}, SupplyChainItem: SupplyChainItem{Name: "s1"}}}}
+	md := map[string]map[string]Metadata{"s1": {filedUnder: link}}
+	_, err := VerifyLinkSignatureThesholds(layout, md, nil, nil)
+	vObserve("reallinks", err == nil)
+	want := vAnd(vEqStr(entryID, kid), vAnd(vEqStr(sigVal, good), vEqStr(filedUnder, kid)))
+	vAssert("C02.a-link-counts-only-with-a-valid-signature-entry-of-exactly-the-authorized-key", (err == nil) == want)
+	vReach("C02.end")
 }
 
 // vh_C02_foreignstep: authorization is per step.  Two steps with their own
